@@ -91,6 +91,7 @@ var applyUnit = ev.Unit[ApplyCase]{
 		if gen.OneIn(t, 4, "noisy") {
 			g.NearMiss = 10
 		}
+		g.Swarm(t)
 		ops := g.Seq(t, doc, ref.Opts{Neg: true}, 1, 8, 0)
 		dt, pt := gen.Texts(t, doc, ref.OpsTree(ops), false, "sp")
 		return ApplyCase{Doc: dt, Patch: pt}
